@@ -79,11 +79,13 @@ CHECKS = {
         note="Trusted: TLC, gcc sanitizers, harness/analyzed.py (re-runs the backend analyses per procedure as the compiler does); "
              "signed overflow only as far as UBSan sees it on small inputs."),
     "C09": dict(level=MC, design="6/C09",
-        technique="TLA+ ExoMachine RaceFree monitor (per-iteration read/write/reduce location sets) model-checked by TLC on procedures the backend compiles",
+        technique="TLA+ ExoMachine RaceFree monitor (per-iteration read/write/reduce location sets) and iteration-order nondeterminism (ExoPar mode: all permutations of parallel iterations) model-checked by TLC on procedures the backend compiles",
         text="Procedures with par loops (written so at every depth, under if and in callees; and parallelize_loop applied to every loop "
              "and loop pair of the corpora) that the real backend compiles are run by TLC on all bounded inputs; at the end of every "
-             "iteration of every parallel loop instance the iteration's write/reduce set must be disjoint from all other iterations' accesses.",
-        note="Trusted: TLC, projection; access sets are collected in sequential order; OpenMP runtime not executed."),
+             "iteration of every parallel loop instance the iteration's write/reduce set must be disjoint from all other iterations' accesses; "
+             "then (ExoPar mode of the machine) the same procedure is run with the iterations of every parallel loop in every order "
+             "(TLC branches over the permutations) and every final state must equal the sequential one.",
+        note="Trusted: TLC, projection; iterations are atomic in the order exploration (statement-level interleavings are covered by the RaceFree monitor, not enumerated); OpenMP runtime not executed."),
     "C06": dict(level=MC, design="6/C06",
         technique="TLA+ CursorEdit specification (labelled trees, elementary edits, forwarding) model-checked by TLC, replayed transition-by-transition on internal_cursors, label oracle applied to real primitives",
         text="(1) TLC proves FwdSound/FwdComplete for all labelled statement trees up to 4 (thorough 5) nodes x insert/replace/delete/"
